@@ -27,6 +27,8 @@ def run(rep):
     scatchecks.backward_checks(rep, fnd, "C09", rep.tier)
     from .. import autogradchecks
     autogradchecks.regimes(rep, "C09", autogradchecks.scat_cases(), "C09: two calls before one backward, second backward")
+    hs = autogradchecks.tape_histories(rep, rep.tier)
+    autogradchecks.tape_replay(rep, "C09", autogradchecks.scat_cases(), hs, 12 if rep.tier == "quick" else 120)
     rep.assumptions += ["finite differences in float64 with step 1e-5 * scale; tolerance 1e-5 relative",
                         "the property requires magbias > 0"]
 
